@@ -6,29 +6,29 @@ Open Scope Z_scope.
 (* Strings and byte strings (utf8 = true / false; limit = max_string_length / max_byte_string_length),
    for every limit and every declared length L, whatever bytes follow: *)
 Theorem C03_string_over_limit : forall limit utf8 L bs, in_i 4 L -> 0 <= limit -> limit < L ->
-  run (dec_ustr limit utf8) (enc_i 4 L ++ bs) = Err ELimit.
+  Codec.run (dec_ustr limit utf8) (enc_i 4 L ++ bs) = Err ELimit.
 Proof. exact ustr_over. Qed.
 Print Assumptions C03_string_over_limit.
 
 Theorem C03_string_negative : forall limit utf8 L bs, in_i 4 L -> L < -1 ->
-  run (dec_ustr limit utf8) (enc_i 4 L ++ bs) = Err ENeg.
+  Codec.run (dec_ustr limit utf8) (enc_i 4 L ++ bs) = Err ENeg.
 Proof. exact ustr_negative. Qed.
 Print Assumptions C03_string_negative.
 
 Theorem C03_string_within_limit : forall limit utf8 items rest,
   Z.of_nat (length items) <= limit -> Z.of_nat (length items) < 2 ^ 31 ->
   (utf8 = true -> utf8_valid items = true) ->
-  run (dec_ustr limit utf8) (enc_i 4 (Z.of_nat (length items)) ++ items ++ rest) = Ok (Some items, rest).
+  Codec.run (dec_ustr limit utf8) (enc_i 4 (Z.of_nat (length items)) ++ items ++ rest) = Ok (Some items, rest).
 Proof. exact ustr_within. Qed.
 Print Assumptions C03_string_within_limit.
 
 Theorem C03_array_over_limit : forall A o esize (m : M A) L bs, in_i 4 L -> 0 <= max_arr o -> max_arr o < L ->
-  run (dec_array o esize m) (enc_i 4 L ++ bs) = Err ELimit.
+  Codec.run (dec_array o esize m) (enc_i 4 L ++ bs) = Err ELimit.
 Proof. intros A. exact (@array_over A). Qed.
 Print Assumptions C03_array_over_limit.
 
 Theorem C03_array_negative : forall A o esize (m : M A) L bs, in_i 4 L -> L < -1 ->
-  run (dec_array o esize m) (enc_i 4 L ++ bs) = Err ENeg.
+  Codec.run (dec_array o esize m) (enc_i 4 L ++ bs) = Err ENeg.
 Proof. intros A. exact (@array_negative A). Qed.
 Print Assumptions C03_array_negative.
 
